@@ -31,7 +31,7 @@ class C05(vlib.Check):
         for ty, L in lim.items():
             for h in directed_buf_histories(ty, L):
                 yield 'buf %s 4 %s' % (ty, ';'.join(h))
-        n = 250 if tier == 'quick' else 5000
+        n = 250 if tier == 'quick' else 40000
         for ty, L in lim.items():
             for _ in range(n):
                 h = gen_buf_history(rng, ty, L, 4, rng.choice([6, 10, 16]))
